@@ -66,8 +66,12 @@ pub const LIKE_PATS: [Option<&str>; 11] = [
     Some("A%"),
     Some("a%%b"),
 ];
-pub const REGEX_PATS: [&str; 14] =
-    ["", "a", "^a", "a$", "^a$", "^$", ".*", "^(a|ab)$", "^(a)$", "a|1", "^a|b$", "a%", "a.", "^(a|%)$"];
+// the last four are fully anchored literals containing the LIKE wildcards: the simplifier lowers
+// `~*` on an anchored literal to ILIKE, where `_` / `%` must stay literal characters
+pub const REGEX_PATS: [&str; 18] = [
+    "", "a", "^a", "a$", "^a$", "^$", ".*", "^(a|ab)$", "^(a)$", "a|1", "^a|b$", "a%", "a.", "^(a|%)$", "^a_$", "^a%$", "^_$",
+    "^%$",
+];
 
 fn is_col(e: &E) -> bool {
     matches!(e, E::Col(_))
